@@ -88,10 +88,22 @@ class Indentation(afmformats.AFMForceDistance):
             self._rating = None
             # Apply preprocessing
             # (This will call `AFMData.reset_data` on self)
-            details = preproc.apply(apret=self,
-                                    identifiers=preprocessing,
-                                    options=options,
-                                    ret_details=ret_details)
+            try:
+                details = preproc.apply(apret=self,
+                                        identifiers=preprocessing,
+                                        options=options,
+                                        ret_details=ret_details)
+            except BaseException:
+                # Do not remember a request that was rejected (a second
+                # identical request would otherwise be skipped silently).
+                # Leave a well-defined state: raw data, no preprocessing.
+                fp.pop("preprocessing")
+                fp.pop("preprocessing_options")
+                self.reset_data()
+                self.preprocessing = []
+                self.preprocessing_options = {}
+                self._preprocessing_details = {}
+                raise
             self._preprocessing_details = details
             # Check availability of axes
             for ax in ["x_axis", "y_axis"]:
